@@ -585,6 +585,12 @@ impl QueryRouter {
                 _ => {
                     debug!("Write statement found, going to primary");
 
+                    // Decide the role first: shard inference below may give up on the
+                    // statement with an error, and a write must not keep the role of
+                    // whatever ran before it.
+                    visited_write_statement = true;
+                    self.active_role = Some(Role::Primary);
+
                     if self.pool_settings.db_activity_based_routing {
                         // add all of the query tables to the mutation cache
                         self.update_mutation_cache_on_write(q);
